@@ -1,5 +1,6 @@
 """C05 - arbitrary input never corrupts memory, leaks, hangs or leaves partial results (partial)"""
-from props import comps, comps_iff, comps_json, comps_jsonnum, comps_robust, comps_types, comps_xmlbuf, comps_yangstr
+from props import (comps, comps_iff, comps_json, comps_jsonbuf, comps_jsonnum, comps_robust, comps_types, comps_xmlbuf,
+                   comps_yangstr)
 
 PID = "C05"
 LEVEL = "proof"
@@ -12,7 +13,8 @@ def components():
     # and list-style lexers whose models cannot read past the end of the input: agreement of the C code with them on
     # truncated / malformed inputs under ASan+UBSan is what ties the no-out-of-bounds theorems to the code
     return [comps_iff.IffCompile(), comps_iff.IffValue(), comps.Utf8(), comps.XmlVal(), comps_json.JsonStr(),
-            comps_types.Dec64Next(), comps_jsonnum.JsonNum(), comps_xmlbuf.XmlBuf(), comps_yangstr.YangStr()]
+            comps_types.Dec64Next(), comps_jsonnum.JsonNum(), comps_xmlbuf.XmlBuf(), comps_yangstr.YangStr(),
+            comps_jsonbuf.JsonBuf()]
 
 
 def oracles_():
@@ -29,10 +31,10 @@ def oracles_():
 
 TRUSTED = [
     "impl/t_iff.c, impl/t_xml.c, impl/t_json.c, impl/t_types.c, impl/t_jsonnum.c (white-box drivers that include the C file and call the "
-    "static functions), impl/t_xmlbuf.c + impl/t_yangstr.c (the same, plus function-like macros malloc / ly_realloc / free defined "
+    "static functions), impl/t_xmlbuf.c + impl/t_yangstr.c + impl/t_jsonbuf.c (the same, plus function-like macros malloc / ly_realloc / free defined "
     "between the headers and the included source to record the requested sizes; the sources are not edited), impl/t_robust.c (the "
     "search driver: post-conditions, LSan / heap-growth leak attribution, CPU limit, health workload)",
-    "tools/props/comps_xmlbuf.py + comps_yangstr.py render EVENT lists into texts: that a text is cut into exactly those events by the "
+    "tools/props/comps_xmlbuf.py + comps_yangstr.py + comps_jsonbuf.py render EVENT lists into texts: that a text is cut into exactly those events by the "
     "C loop is checked only by the agreement of the compared lines, not proved; tools/props/comps_robust.py classify() / asan_tag() "
     "(sanitizer report -> tag, solo re-run of coarse release-build failures on the ASan build)",
 ]
@@ -40,12 +42,12 @@ TRUSTED = [
 ASSUMPTIONS = [
     "every theorem is about a Gallina transcription of the named C functions; the tie to the C code is differential testing (T2) on "
     "generated inputs under ASan+UBSan, not a proof",
-    "hypotheses of the theorems: if-feature string shorter than 2^62 bytes (len_ok); JSON text shorter than 4 GiB; XML / YANG events "
-    "with characters and reference results of 1 to 4 bytes (ev_wf: what ly_getutf8 / ly_pututf8 deliver); C05_yangstr_len_rfc only for "
+    "hypotheses of the theorems: if-feature string shorter than 2^62 bytes (len_ok); JSON text shorter than 4 GiB; XML / YANG / JSON-string "
+    "events with characters and reference / escape results of 1 to 4 bytes (ev_wf: what ly_getutf8 / ly_pututf8 deliver); C05_yangstr_len_rfc only for "
     "ONE double-quoted string (no + concatenation) whose lines hold characters, blanks, tabs and valid escapes and that ends with its "
     "closing quote",
-    "malloc / realloc never fail (LY_EMEM paths are in no model); sizes are unbounded N: for xmlbuf C05_xmlbuf_size_bounded shows that "
-    "size_t cannot wrap, for yangstr the same bound (input length + 17) is argued in YangStr.v but NOT proved, for iffeature / jsonnum the "
+    "malloc / realloc never fail (LY_EMEM paths are in no model); sizes are unbounded N: for xmlbuf and jsonbuf C05_xmlbuf_size_bounded / C05_jsonbuf_size_bounded show "
+    "that size_t cannot wrap, for yangstr the same bound (input length + 17) is argued in YangStr.v but NOT proved, for iffeature / jsonnum the "
     "C integer widths are modelled",
 ]
 
@@ -75,6 +77,17 @@ MANIFEST = {
             "requested size is at most the byte count of the events + 152; C05_xmlbuf_no_leak (no hypothesis): the malloc / realloc / free "
             "calls of one call are balanced; regression Example C05_xmlbuf_oneshot_growth_refuted: the one-shot growth of the seeded change "
             "C05-5 stores 200 bytes into a block of 153. "
+            "(jsonbuf, sizes only) the model of lyjson_string() keeps the variable size AND the real size of the block (as coded the variable is "
+            "advanced by ONE 128-byte step although the realloc may add several, so it lags behind the block after a long run of plain bytes; "
+            "harmless, it only causes extra reallocs). C05_jsonbuf_no_overflow: for EVERY sequence of events (plain characters and escape "
+            "results of 1-4 bytes, failing escapes, invalid characters, closing quotation mark, end of input) every store - pending plain "
+            "bytes copied at an escape, the bytes of ly_pututf8(), final copy, NUL - lies inside the REAL block of the moment and the "
+            "increment loop ends; C05_jsonbuf_len_exact: a dynamic value comes back in a block of exactly length+1 bytes with contiguous "
+            "stores from 0 to length+1, a string without escapes makes no store and no allocation; C05_jsonbuf_no_leak: on every error exit "
+            "what was allocated is freed exactly once, a dynamic value is the one block, not freed; C05_jsonbuf_size_bounded: every block and "
+            "requested size is at most the byte count of the events + 132; regression Example C05_jsonbuf_onestep_growth_refuted: growth by "
+            "a single step (the code without its increment loop; the shape of seeded change C05-5 in the XML twin) stores 200 bytes into a "
+            "block of 152. "
             "(yangstr, sizes and counters only) C05_yangstr_no_underflow: for EVERY sequence of events of read_qstring() / buf_store_char() / "
             "buf_add_char() / end of get_argument() (characters of 1-4 bytes, blanks, tabs, line feeds, valid and invalid escapes, invalid "
             "characters, + concatenation of double- and single-quoted parts, end of input; either first quote, any ctx->indent) trailing_ws "
@@ -87,15 +100,15 @@ MANIFEST = {
             "No C05 theorem, by construction only: the models of ly_getutf8, lyxml_parse_value (bytes), lyjson_string and "
             "lyplg_type_parse_dec64 (theorems under C01 / C03) are structural recursions on the input list and cannot read past its end. "
             "Tie (T2): extracted models vs the C functions on generated, exhaustive-short, malformed and truncated inputs, release and "
-            "ASan+UBSan builds, crash-isolated; for xmlbuf / yangstr the compared line is return code, dynamic flag, length and the SEQUENCE "
-            "of malloc / realloc / free requests of the real lyxml_parse_value() / get_argument() on texts rendered from event lists; the "
+            "ASan+UBSan builds, crash-isolated; for xmlbuf / yangstr / jsonbuf the compared line is return code, dynamic flag, length and the "
+            "SEQUENCE of malloc / realloc / free requests of the real lyxml_parse_value() / get_argument() / lyjson_string() on texts rendered from event lists; the "
             "stores themselves are not observable from outside, there ASan is the observer.",
     "note": "Partial by nature: memory safety of the remaining C code, allocation failure paths, leaks and stack depth are runtime "
             "behaviour no Gallina model exhibits. Modelled C: lys_compile_iffeature (lysc_iffeature_value is compared by T2 component "
             "iffv, its theorems are under C11), lyjson_number + helpers, the buffer sizes of lyxml_parse_value / "
-            "lyxml_parse_value_use_buf (XmlBuf.v), the counters of read_qstring / buf_store_char / buf_add_char (YangStr.v, YangStrLen.v; "
+            "lyxml_parse_value_use_buf (XmlBuf.v), the buffer sizes of lyjson_string (JsonBuf.v; its bytes: JsonText.v, C01/C12), the counters of read_qstring / buf_store_char / buf_add_char (YangStr.v, YangStrLen.v; "
             "WHICH bytes are kept is slice ytext, C10/C15); T2 only under this property: ly_getutf8, lyxml_parse_value (bytes), "
-            "lyjson_string, lyplg_type_parse_dec64. Oracle level only (search on the implementation, no proof): iff-denote (every rendering "
+            "lyjson_string (bytes), lyplg_type_parse_dec64. Oracle level only (search on the implementation, no proof): iff-denote (every rendering "
             "of an if-feature AST compiles and evaluates to its denotation, no crash), decvx (decimal64 value in a heap block of exactly "
             "its length, ASan; regression of /repo f731599), jsonnum-long (mantissas around 65535 bytes), and `robust` (impl/t_robust.c: "
             "structure-aware mutation of valid seeds under ASan+UBSan with a leak check per case, a CPU limit per case, dictionary "
